@@ -89,12 +89,33 @@ pub fn to_lossy_bytes(input: &str) -> Cow<[u8]> {
     // all utf-8 characters are no longer than 4 bytes.
     let mut buf = [0; 4];
 
+    // was the previous character an unescaped control character?
+    let mut pending_control = false;
+
     'outer: for c in input.chars() {
         // all codepages share ascii values
         if c.is_ascii() {
+            if pending_control {
+                // a codepage marker that is already in the text (i.e. ^8, or ^E) changes the
+                // codepage the reader will be in from here on, so we need to follow it
+                if let Some(encoding) = c.as_lfs_codepage() {
+                    current_encoding = encoding;
+                    current_control = if c.propagate_lfs_codepage() {
+                        DEFAULT_CODEPAGE
+                    } else {
+                        c
+                    };
+                }
+                pending_control = false;
+            } else {
+                pending_control = c.is_lfs_control_char();
+            }
+
             output.push(c as u8);
             continue;
         }
+
+        pending_control = false;
 
         buf.fill(0);
         let char_as_bytes = c.encode_utf8(&mut buf);
